@@ -6,7 +6,9 @@ Model of `aiocoap/message.py` `set_request_uri` (default `set_uri_host=True`) *a
 `fix:` commits of this property (port checked before the remote is built and an invalid
 IP literal wrapped into `MalformedUrlError`; the IPv4 test no longer calls `int("")` and wants
 RFC 3986 dec-octets; empty user info; a bracketed literal must be the complete host and its
-zone identifier unreserved; see findings/C16.json), and of `UndecidedRemote.__new__`
+zone identifier unreserved; a `#` anywhere in the text is a fragment identifier, also an empty
+one; the Uri-Host is taken from the netloc text and lower-cased in ASCII only, not from
+`.hostname`; see findings/C16.json), and of `UndecidedRemote.__new__`
 (`message.py`, "class UndecidedRemote").
 
 What a successful call leaves behind is `Opts`: `remote.scheme`, `remote.hostinfo`,
@@ -56,9 +58,8 @@ def undecidedHostinfo (ip : IpOracle) (netloc : Bytes) : Option Bytes :=
     | _ => none
   else some netloc
 
-/-- the part of `set_request_uri` after `urlparse` -/
+/-- the part of `set_request_uri` after `urlparse` and the fragment test -/
 def fromParsed (ip : IpOracle) (p : Parsed) : Outcome :=
-  if p.fragment ≠ [] then .malformed else
   if p.scheme = [] then .incomplete else
   if !coapSchemes.contains p.scheme then .proxy else
   match hostnameOf p.netloc with
@@ -77,17 +78,21 @@ def fromParsed (ip : IpOracle) (p : Parsed) : Outcome :=
           if p.netloc.head? == some 91 || ip4Looking hn then
             .ok { scheme := p.scheme, hostinfo, uriHost := none, uriPort := none, path, query }
           else
-            match unquoteStrict hn with
+            -- `host = parsed.netloc.partition(":")[0]` (not `parsed.hostname`, since the fix
+            -- that lower-cases in ASCII only; no user info and no bracket at this point)
+            match unquoteStrict (before 58 p.netloc) with
             | none => .malformed
             | some h =>
               .ok { scheme := p.scheme, hostinfo, uriHost := some (asciiLower h),
                     uriPort := none, path, query }
     | _, _ => .malformed
 
-/-- `Message.set_request_uri(u)` -/
+/-- `Message.set_request_uri(u)`: `urlparse` (`ValueError` → Malformed), then `if "#" in uri`
+(since the fix that rejects the empty fragment of `coap://h/a#` too: `parsed.fragment` is empty
+for it), then the rest -/
 def setRequestUri (ip : IpOracle) (u : Bytes) : Outcome :=
   match urlsplit ip u with
   | none => .malformed
-  | some p => fromParsed ip p
+  | some p => if u.contains 35 then .malformed else fromParsed ip p
 
 end Aiocoap.Uri
